@@ -5,13 +5,14 @@ import common as C
 import gen as G
 
 PROP = 'C01'
-LEAN_MODULES = ['BR.Props.C01']
+LEAN_MODULES = ['BR.Props.C01', 'BR.Props.C01Half']
 THEOREMS = ['BR.C01.vee_hat', 'BR.C01.hat_vee', 'BR.C01.vee6_hat6', 'BR.C01.hat6_vee6',
             'BR.C01.exp3_mem_SO3', 'BR.C01.exp6_mem_SE3', 'BR.C01.log3_exp3', 'BR.C01.log3_exp3_small', 'BR.C01.exp3_log3',
             'BR.Rot.exp3_log3_generic', 'BR.Rot.exp3_log3_halfturn', 'BR.Rot.exp3_log3_identity',
             'BR.C01.transInv_mul', 'BR.C01.mul_transInv', 'BR.C01.adjoint_mul', 'BR.C01.adjoint_transInv',
             'BR.C01.conj_hat6', 'BR.C01.ad_bracket', 'BR.Rot.hat_cofactor', 'BR.Rot.rod_orth', 'BR.Rot.rod_det',
-            'BR.C01.log6_exp6', 'BR.C01.exp6_log6_below_pi', 'BR.C01.Log6.lterm_mul_G', 'BR.C01.Log6.cot_half']
+            'BR.C01.log6_exp6', 'BR.C01.exp6_log6_below_pi', 'BR.C01.Log6.lterm_mul_G', 'BR.C01.Log6.cot_half',
+            'BR.C01.exp6_log6_halfturn', 'BR.C01.exp6_log6', 'BR.Rot.log3_halfturn_form']
 TIE = ('K: hand-written generic model lean/BR/Model/MR.lean (same branches and constants as the @jit kernels); every run evaluates the '
        'Float instance of the model (compiled driver) and the compiled kernels of basic_robotics.modern_robotics_numba on the same inputs '
        '(IEEE bit patterns across the boundary) and compares values and the branch taken; theorems are about the ℝ instance of the same definitions.')
@@ -19,11 +20,10 @@ TRUSTED = ['Lean 4.33 kernel + Mathlib v4.33 (axioms: propext, Classical.choice,
            'harness/c01.py + harness/gen.py (generators, tolerances); sympy certificates in certs/ are untrusted (checked by linear_combination)',
            'theorems are over ℝ: IEEE rounding, libm and BLAS are outside them (measured model/implementation gap is reported)',
            'Numba compilation of the kernels (differential evidence only)']
-ASSUMPTIONS = ['finite inputs', 'exp3(log3 R) = R is proved for angle 0 or >= 1e-6, inside the band the code returns the identity by design; log6(exp6 V) = V is proved for |w| = 0 or in [1e-6, pi), exp6(log6 T) = T for rotation angle 0 or in [1e-6, pi); the half-turn branch of exp6(log6 T) is exercised on the implementation only']
+ASSUMPTIONS = ['finite inputs', 'exp3(log3 R) = R is proved for angle 0 or >= 1e-6, inside the band the code returns the identity by design; log6(exp6 V) = V is proved for |w| = 0 or in [1e-6, pi), exp6(log6 T) = T for every rigid transform with rotation angle 0 or >= 1e-6 (identity, generic and half-turn branches)']
 RULE = ('inputs from (axis class x angle class x translation magnitude); angle classes 0, inside/at the 1e-6 cut-off band, small, 1, pi/2, pi-1e-3, pi-1e-6, exact half turns, generic; '
         'distinct = distinct (function, input) pairs; non-trivial = input is not the zero vector / identity')
-SAMPLED = [           'exp6(log6 T) = T at rotation angle exactly pi (half-turn branch; falsifier only)',
-           'compiled kernel = model at Float up to 1e-9 relative (differential)']
+SAMPLED = [           'compiled kernel = model at Float up to 1e-9 relative (differential)']
 
 _fmr = None
 
